@@ -31,12 +31,13 @@ VARIABLES open,    \* per master: <<tgt, we>> of the request it holds (cyc & stb
           served,  \* per master: 1 if its current cyc period has been served (seen by a slave / terminated)
           waitc,   \* per master: foreign cyc periods served since it started waiting unserved
           owner,   \* per slave: master that drove it in the previous cycle (0 none)
-          age,     \* per master: cycles its open request has been granted-and-unanswered (time-out accounting)
+          age,     \* per master: cycles its open request has CERTAINLY been granted and unanswered
+          ageu,    \* per master: cycles its open request has POSSIBLY been granted and unanswered (age <= ageu)
           tofired, \* per master: 1 if its last termination was a time-out (recovery bookkeeping)
           seen,    \* per slave: master whose strobed request it saw in the previous cycle (0 none)
           obs
 
-cvars == <<open, incyc, served, waitc, owner, age, tofired, seen, obs>>
+cvars == <<open, incyc, served, waitc, owner, age, ageu, tofired, seen, obs>>
 
 MAXN == 3
 Masters(c) == 1..c.n
@@ -87,6 +88,7 @@ CInit ==
   /\ waitc = [i \in 1..MAXN |-> 0]
   /\ owner = [j \in 1..MAXN |-> 0]
   /\ age = [i \in 1..MAXN |-> 0]
+  /\ ageu = [i \in 1..MAXN |-> 0]
   /\ tofired = [i \in 1..MAXN |-> 0]
   /\ seen = [j \in 1..MAXN |-> 0]
   /\ obs = [okroute |-> TRUE, okowner |-> TRUE, okanswer |-> TRUE, okdata |-> TRUE, oknolost |-> TRUE, okwait |-> TRUE,
@@ -108,9 +110,15 @@ CStep(c, iv, o) ==
       \* time-out: the interconnect may terminate master i itself once its request has been
       \* presented (granted) and unanswered for T cycles
       granted(i) == IF Tgt(iv, i) = c.m + 1
-                    THEN TRUE   \* unmapped: cannot be observed at a slave; counted from the request on
+                    THEN \* unmapped: the grant cannot be observed at a slave; counted only while
+                         \* every other master is and was idle (then the bus is certainly i's)
+                         \A k \in Masters(c) : k = i \/ (~cyc(k) /\ incyc[k] = 0)
                     ELSE \E j \in Slaves(c) : drives(i, j)
-      synth(i) == c.timeout > 0 /\ stb(i) /\ term(i) /\ ~(\E j \in Slaves(c) : drives(i, j) /\ sterm(j))
+      slaveans(i) == \E j \in Slaves(c) : drives(i, j) /\ sterm(j)
+      \* a slave answer arriving in the very cycle the timer expires may lose against the forced
+      \* termination (the error pulse says which of the two happened)
+      expiring(i) == c.timeout > 0 /\ stb(i) /\ term(i) /\ ageu[i] >= c.timeout /\ ErrPulse(c, o) = 1
+      synth(i) == c.timeout > 0 /\ stb(i) /\ term(i) /\ (~slaveans(i) \/ expiring(i))
       okroute ==
         /\ \A j \in Slaves(c) : SCyc(c, o, j) = 1 =>
               LET i == STag(c, o, j) IN
@@ -128,13 +136,14 @@ CStep(c, iv, o) ==
           term(i) =>
             /\ stb(i)
             /\ \/ \E j \in Slaves(c) :
+                    /\ ~synth(i)
                     /\ drives(i, j) /\ sterm(j)
                     /\ MAck(o, i) = (IF sack(j) THEN 1 ELSE 0)
                     /\ MErr(o, i) = (IF serr(j) THEN 1 ELSE 0)
                \/ synth(i)
       okdata ==
         \A i \in Masters(c) : \A j \in Slaves(c) :
-          (MAck(o, i) = 1 /\ We(iv, i) = 0 /\ drives(i, j) /\ sack(j)) => MDat(o, i) = 8 + j
+          (MAck(o, i) = 1 /\ We(iv, i) = 0 /\ drives(i, j) /\ sack(j) /\ ~synth(i)) => MDat(o, i) = 8 + j
       oknolost ==
         \A j \in Slaves(c) : sterm(j) => (STag(c, o, j) \in Masters(c) /\ term(STag(c, o, j)))
       newserved(i) == cyc(i) /\ (IF incyc[i] = 1 THEN served[i] = 0 ELSE TRUE)
@@ -146,13 +155,15 @@ CStep(c, iv, o) ==
                                    THEN waitc[i] + nforeign(i) ELSE 0]
       \* ------- C11 clauses
       age1(i) == IF stb(i) /\ ~term(i) /\ granted(i) THEN age[i] + 1 ELSE 0
+      maybegranted(i) == IF Tgt(iv, i) = c.m + 1 THEN TRUE ELSE \E j \in Slaves(c) : drives(i, j)
+      ageu1(i) == IF stb(i) /\ ~term(i) /\ maybegranted(i) THEN ageu[i] + 1 ELSE 0
       oktimeout == c.timeout > 0 => \A i \in Masters(c) : age[i] <= c.timeout + c.slack
       okerrind == \A i \in Masters(c) :
                     synth(i) => ( /\ MAck(o, i) = 1
                                   /\ (We(iv, i) = 0 => MDat(o, i) = c.allones)
                                   /\ ErrPulse(c, o) = 1 )
       oknodisturb ==
-        /\ \A i \in Masters(c) : synth(i) => age[i] >= c.timeout      \* never fires early
+        /\ \A i \in Masters(c) : synth(i) => ageu[i] >= c.timeout     \* never fires early
         /\ (ErrPulse(c, o) = 1 => \E i \in Masters(c) : synth(i))
   IN
   /\ open' = [i \in 1..MAXN |-> IF i \in Masters(c) /\ stb(i) /\ ~term(i)
@@ -165,6 +176,9 @@ CStep(c, iv, o) ==
   /\ age' = [i \in 1..MAXN |-> IF i \in Masters(c) THEN
                                    (IF age1(i) > c.timeout + c.slack + 1 THEN c.timeout + c.slack + 1 ELSE age1(i))
                                ELSE 0]
+  /\ ageu' = [i \in 1..MAXN |-> IF i \in Masters(c) THEN
+                                   (IF ageu1(i) > c.timeout + 1 THEN c.timeout + 1 ELSE ageu1(i))
+                                ELSE 0]
   /\ tofired' = [i \in 1..MAXN |-> IF i \in Masters(c) /\ synth(i) THEN 1
                                    ELSE IF i \in Masters(c) /\ term(i) THEN 0 ELSE tofired[i]]
   /\ seen' = [j \in 1..MAXN |-> IF j \in Slaves(c) /\ SCyc(c, o, j) = 1 /\ SStb(c, o, j) = 1 THEN STag(c, o, j) ELSE 0]
